@@ -27,218 +27,228 @@ def check(R):
     F = R.facts
     groups = 'groups' in (F.hdr.get('features') or '')
     # ---- a --------------------------------------------------------------------
-    ma = R.body('acl::AclEntry::match_accessor')
-    defs = prims.result_defs(ma)
-    nonfalse = [(bb, k, p) for (bb, k, p) in defs if not (k == 'const' and p == 0)]
-    R.floor('result definitions of match_accessor', len(defs), 2)
-    ok = all(k == 'call' and p.get('f') == 'core::option::Option::unwrap_or' for (bb, k, p) in nonfalse) and bool(nonfalse)
-    R.expect('P10', ma.fn, 'the only non-false result is fab_idx.map(..).unwrap_or(false)', ok,
-             f'{len(nonfalse)} non-false result definition(s), all Option::unwrap_or',
-             f'non-false results: {[(ma.where(bb), k, (p.get("f") if isinstance(p, dict) else p)) for bb, k, p in nonfalse]}')
-    for (bb, k, p) in nonfalse:
-        if k != 'call':
-            continue
-        srcs = prims.sources(ma, p['a'][0], through={'core::option::Option::map'})
-        R.expect('P10', ma.fn, 'unwrap_or default is false and the Option derives from self.fab_idx',
-                 p['a'][1].get('k', {}).get('v') == 0 and mentions(srcs, 'fab_idx') and 'core::option::Option::map' in src_calls(srcs),
-                 'self.fab_idx.map(cmp).unwrap_or(false)', f'sources {sorted(map(str, srcs))[:6]}, default {p["a"][1]}', ma.where(bb))
-    cmpc = closure_in(R, 'acl::AclEntry::match_accessor', ['NonZero::get'])
-    cs = prims.compare_sites(cmpc, ops=('Eq', 'Ne', 'Le', 'Ge', 'Lt', 'Gt'))
-    good = [c for c in cs if c[2] == 'Eq' and mentions(prims.sources(cmpc, c[3]) | prims.sources(cmpc, c[4]), 'fab_idx')
-            and 'core::num::nonzero::NonZero::get' in src_calls(prims.sources(cmpc, c[3]) | prims.sources(cmpc, c[4]))]
-    R.expect('P10', cmpc.fn, 'entry fabric index is compared for equality with the accessor fabric index', len(good) == 1 and len(cs) == 1,
-             'fab_idx.get() == accessor.fab_idx', f'comparisons: {[(c[2]) for c in cs]}', f'{cmpc.file}:{cmpc.line}')
-    rd = prims.result_defs(cmpc)
-    R.expect('P10', cmpc.fn, 'the closure returns the comparison itself', all(k == 'expr' and p.get('op') == 'bin' and p.get('b') == 'Eq' for bb, k, p in rd) and bool(rd),
-             'return a == b', f'result defs {[(k) for bb, k, p in rd]}')
-    # auth mode must match: non-false results cut by the `!=` being false
-    ne = ma.calls('core::cmp::PartialEq::ne')
-    R.floor('auth-mode comparison in match_accessor', len(ne), 1)
-    s = set()
-    for a in ne[0].d['a']:
-        s |= prims.sources(ma, a)
-    R.expect('P10', ma.fn, 'auth modes of entry and accessor are compared', mentions(s, 'auth_mode') and ('arg', 2) in s and ('arg', 1) in s,
-             'Some(self.auth_mode) != accessor.auth_mode', f'sources {sorted(map(str, s))[:6]}', ma.where(ne[0].bb))
-    R.cut('P2', ma, 'non-false result', [bb for bb, k, p in nonfalse], 'auth modes equal',
-          lambda: _false_edges(R, ma, ne[0]))
-    allow = named_local(ma, 'allow')
-    te = set()
-    for l in allow:
-        te |= prims.bool_local_edges(ma, l)[0]
-    R.cut('P2', ma, 'non-false result', [bb for bb, k, p in nonfalse], 'subject match (allow == true)', te)
-    subj = closure_in(R, 'acl::AclEntry::match_accessor', ['AccessorSubjects::matches'])
-    R.expect('P4', subj.fn, 'subject matching goes through AccessorSubjects::matches', True, 'located by content', '')
-
-    fa = R.body('fabric::Fabrics::allow')
-    defs = prims.result_defs(fa)
-    trues = [bb for bb, k, p in defs if k == 'const' and p == 1]
-    others = [(bb, k, p) for bb, k, p in defs if not (k == 'const')]
-    R.expect('P10', fa.fn, 'every non-constant result is Fabric::allow', all(k == 'call' and p.get('f') == 'fabric::Fabric::allow' for bb, k, p in others) and len(others) == 1,
-             'fabric.allow(req, aux)', f'{[(k, p.get("f") if isinstance(p, dict) else p) for bb, k, p in others]}')
-    R.floor('constant-true results of Fabrics::allow', len(trues), 1)
-    eq = fa.calls('core::cmp::PartialEq::eq')
-    R.floor('auth-mode comparison in Fabrics::allow', len(eq), 1)
-    s = set()
-    for a in eq[0].d['a']:
-        s |= prims.sources(fa, a)
-    R.expect('P10', fa.fn, 'the implicit grant tests auth_mode() against AuthMode::Pase',
-             'acl::Accessor::auth_mode' in src_calls(s) and ('agg', 'acl::AuthMode', 'Pase') in s and not [x for x in s if x[0] == 'agg' and x[1] == 'acl::AuthMode' and x[2] != 'Pase'],
-             'auth_mode() == Some(Pase)', f'sources {sorted(map(str, s))[:8]}', fa.where(eq[0].bb))
-    R.cut('P2', fa, 'return true', trues, 'auth_mode() == Some(AuthMode::Pase)', lambda: R.call_guard(fa, 'core::cmp::PartialEq::eq'))
-    call = [p for bb, k, p in others if k == 'call']
-    if call:
-        srcs = prims.sources(fa, call[0]['a'][0], through={'fabric::Fabrics::get', 'acl::Accessor::fab_idx', 'acl::AccessReq::accessor'})
-        R.expect('P10', fa.fn, 'the fabric consulted is the accessor\'s own', 'fabric::Fabrics::get' in src_calls(srcs) and 'acl::Accessor::fab_idx' in src_calls(srcs),
-                 'self.get(req.accessor().fab_idx()?)', f'sources {sorted(map(str, srcs))[:8]}')
-        cbb = [bb for bb, k, p in others]
-        R.cut('P2', fa, 'Fabric::allow', cbb, 'accessor.fab_idx() is a real index', lambda: R.call_guard(fa, 'acl::Accessor::fab_idx'))
-        R.cut('P2', fa, 'Fabric::allow', cbb, 'the fabric exists', lambda: R.call_guard(fa, 'fabric::Fabrics::get'))
-    fb = R.body('fabric::Fabric::allow')
-    R.expect('P4', fb.fn, 'Fabric::allow evaluates its own ACL entries with AclEntry::allow',
-             any('acl::AclEntry::allow' in b.calls_summary for b in [fb] + F.nested(fb.fn)), 'entries.any(|e| e.allow(req))', 'AclEntry::allow not called')
-    rd = prims.result_defs(fb)
-    trues_fb = [bb for bb, k, p in rd if k == 'const' and p == 1]
-    R.expect('P10', fb.fn, 'Fabric::allow returns only constants decided by AclEntry::allow', all(k == 'const' for bb, k, p in rd) and bool(trues_fb), 'ok', 'non-constant result')
-    R.cut('P2', fb, 'return true', trues_fb, 'some entry\'s AclEntry::allow == true', lambda: R.call_guard(fb, 'acl::AclEntry::allow'))
-
-    # ---- c --------------------------------------------------------------------
-    P = 'dm::types::privilege::Privilege::'
-    A = 'dm::types::privilege::Access::'
-    v, o, m, a = (F.const_val(P + n) for n in ('VIEW', 'OPERATE', 'MANAGE', 'ADMIN'))
-    R.expect('P6', P, 'privilege lattice VIEW < OPERATE < MANAGE < ADMIN (bitwise inclusion)',
-             v and (v & o) == v and v != o and (o & m) == o and o != m and (m & a) == m and m != a, f'{v:#x} {o:#x} {m:#x} {a:#x}', f'{v:#x} {o:#x} {m:#x} {a:#x}')
-    nv, no, nm, na = (F.const_val(A + n) for n in ('NEED_VIEW', 'NEED_OPERATE', 'NEED_MANAGE', 'NEED_ADMIN'))
-    bits = [F.const_val(P + n) for n in ('V', 'O', 'M', 'A')]
-    R.expect('P6', A, 'NEED_* bits line up with the privilege bits', [nv, no, nm, na] == bits and len(set(bits)) == 4 and all(b & (b - 1) == 0 for b in bits),
-             str(bits), f'NEED {[nv, no, nm, na]} vs privilege bits {bits}')
-    R.expect('P6', P, 'each privilege level carries exactly the bits up to its own',
-             (v, o, m, a) == (bits[0], bits[0] | bits[1], bits[0] | bits[1] | bits[2], bits[0] | bits[1] | bits[2] | bits[3]), 'ok', f'{(v, o, m, a)}')
-    R.expect('P6', A, 'read mask = V|O|M|A, write mask = O|M|A', F.const_val(A + 'READ_PRIVILEGE_MASK') == nv | no | nm | na and F.const_val(A + 'WRITE_PRIVILEGE_MASK') == no | nm | na,
-             'ok', f'{F.const_val(A + "READ_PRIVILEGE_MASK")} {F.const_val(A + "WRITE_PRIVILEGE_MASK")}')
-    pv = F.const_val(P + 'PROXYVIEW')
-    R.expect('P6', P, 'ProxyView shares no bit with the required-privilege bits', pv & (nv | no | nm | na) == 0, hex(pv), hex(pv))
-    for n in ('READ', 'WRITE', 'FAB_SCOPED', 'FAB_SENSITIVE', 'TIMED_ONLY'):
-        c = F.const_val(A + n)
-        R.expect('P6', A, f'Access::{n} is a single bit disjoint from the NEED_* bits', c & (c - 1) == 0 and c & 0xf == 0, hex(c), hex(c))
-    iso = R.body('dm::types::privilege::Access::is_ok')
-    nf = prims.nonfalse_result_bbs(iso)
-    R.floor('non-false results of Access::is_ok', len(nf), 1)
-
-    def priv_and_required():
-        e = set()
-        for (bb, j, op, a1, a2, d) in prims.compare_sites(iso, ops=('Eq',)):
-            s1, s2 = prims.sources(iso, a1), prims.sources(iso, a2)
-            if (0 in src_consts(s2) or 0 in src_consts(s1)) and any(x[0] == 'arg' and x[1] == 3 for x in s1 | s2):
-                e |= prims.bool_local_edges(iso, d)[1]
-        return e
-    R.cut('P2', iso, 'non-false result', nf, '(privilege & required) != 0', priv_and_required)
-    R.cut('P2', iso, 'non-false result', nf, 'required privilege set is not empty', lambda: _false_edges_name(R, iso, 'is_empty'))
-    for (bb, k, p) in prims.result_defs(iso):
-        if k == 'call':
-            R.expect('P10', iso.fn, 'the granted result is self.contains(operation)', p.get('f', '').endswith('::contains'), p.get('f'), p.get('f'))
-    mad = R.body('acl::AclEntry::match_access_desc')
-    nf = prims.result_defs(mad)
-    R.expect('P10', mad.fn, 'the only non-false result of match_access_desc is Access::is_ok(operation, self.privilege)',
-             all((k == 'const' and p == 0) or (k == 'call' and p.get('f') == 'dm::types::privilege::Access::is_ok') for bb, k, p in nf) and any(k == 'call' for bb, k, p in nf),
-             'access.is_ok(..)', f'{[(k, p.get("f") if isinstance(p, dict) else p) for bb, k, p in nf]}')
-    for (bb, k, p) in nf:
-        if k == 'call':
-            s = prims.sources(mad, p['a'][2])
-            R.expect('P10', mad.fn, 'the privilege tested is the entry\'s own', mentions(s, 'privilege') and ('arg', 1) in s, 'self.privilege', f'{sorted(map(str, s))[:5]}', mad.where(bb))
-
-    # ---- d --------------------------------------------------------------------
-    mt = R.body('acl::AccessorSubjects::matches')
-    ids = [c for c in prims.compare_sites(mt) if 'acl::get_noc_cat_id' in src_calls(prims.sources(mt, c[3])) and 'acl::get_noc_cat_id' in src_calls(prims.sources(mt, c[4]))]
-    vers = [c for c in prims.compare_sites(mt) if 'acl::get_noc_cat_version' in src_calls(prims.sources(mt, c[3])) and 'acl::get_noc_cat_version' in src_calls(prims.sources(mt, c[4]))]
-    R.expect('P10', mt.fn, 'CAT identifiers are compared for equality', len(ids) == 1 and ids[0][2] == 'Eq', 'Eq', f'{[c[2] for c in ids]}')
-    okv = False
-    if len(vers) == 1:
-        bb, j, op, a1, a2, d = vers[0]
-        l_is_entry = ('arg', 2) in prims.sources(mt, a1, through={'acl::get_noc_cat_version'})
-        r_is_entry = ('arg', 2) in prims.sources(mt, a2, through={'acl::get_noc_cat_version'})
-        okv = (op == 'Ge' and r_is_entry and not l_is_entry) or (op == 'Le' and l_is_entry and not r_is_entry)
-    R.expect('P10', mt.fn, 'CAT version: accessor >= entry', okv, 'version(accessor) >= version(acl_subject)', f'{[(c[2]) for c in vers]}')
-    trues = [bb for bb, k, p in prims.result_defs(mt) if k == 'const' and p == 1]
-    R.floor('true results in AccessorSubjects::matches', len(trues), 2)
-    others = [1 for bb, k, p in prims.result_defs(mt) if k != 'const']
-    R.expect('P10', mt.fn, 'matches() returns only constants decided by the comparisons', not others, 'ok', 'non-constant result')
-
-    def cat_or_exact():
-        e = set()
-        if vers:
-            e |= prims.bool_local_edges(mt, vers[0][5])[0]
-        for c in prims.compare_sites(mt, ops=('Eq',)):
-            s1, s2 = prims.sources(mt, c[3]), prims.sources(mt, c[4])
-            if ('arg', 2) in (s1 | s2) and not ('acl::get_noc_cat_id' in src_calls(s1 | s2)) and not (0 in src_consts(s1 | s2)):
-                e |= prims.bool_local_edges(mt, c[5])[0]
-        return e
-    R.cut('P2', mt, 'return true', trues, 'exact subject match or (same CAT id and version >=)', cat_or_exact)
-    def exact_edges():
-        e = set()
-        for c in prims.compare_sites(mt, ops=('Eq',)):
-            s1, s2 = prims.sources(mt, c[3]), prims.sources(mt, c[4])
-            if ('arg', 2) in (s1 | s2) and not ('acl::get_noc_cat_id' in src_calls(s1 | s2)) and not (0 in src_consts(s1 | s2)):
-                e |= prims.bool_local_edges(mt, c[5])[0]
-        return e
-    if ids:
-        R.cut('P2', mt, 'return true', trues, 'exact subject match or CAT ids equal', lambda: exact_edges() | prims.bool_local_edges(mt, ids[0][5])[0])
-    cats = mt.calls('acl::is_noc_cat')
-    R.expect('P2', mt.fn, 'both the accessor subject and the entry subject are tested with is_noc_cat before the CAT comparison', len(cats) >= 2,
-             f'{len(cats)} is_noc_cat tests', f'only {len(cats)} is_noc_cat test(s): a plain node id can be compared as if it were a CAT')
-    for t in cats:
-        R.cut('P2', mt, 'return true', trues, f'exact subject match or is_noc_cat@{mt.where(t.bb)}',
-              lambda t=t: exact_edges() | prims.track_result(F, mt, t).success)
-
-    # ---- e --------------------------------------------------------------------
-    R.callers_confined('P1', 'acl::AclEntry::allow', {'fabric::Fabric::allow'})
-    R.callers_confined('P1', 'fabric::Fabric::allow', {'fabric::Fabrics::allow'})
-    R.callers_confined('P1', 'fabric::Fabrics::allow', {'acl::AccessReq::allow'})
-    R.callers_confined('P1', 'acl::AclEntry::match_accessor', {'acl::AclEntry::allow'})
-    R.callers_confined('P1', 'acl::AclEntry::match_access_desc', {'acl::AclEntry::allow'})
-    ea = R.body('acl::AclEntry::allow')
-    rd = prims.result_defs(ea)
-    R.expect('P10', ea.fn, 'AclEntry::allow = match_accessor && match_access_desc',
-             all((k == 'const' and p == 0) or (k == 'call' and p.get('f') == 'acl::AclEntry::match_access_desc') for bb, k, p in rd) and any(k == 'call' for bb, k, p in rd),
-             'ok', f'{[(k, p.get("f") if isinstance(p, dict) else p) for bb, k, p in rd]}')
-    R.cut('P2', ea, 'match_access_desc (and any non-false result)', call_bbs(ea, 'acl::AclEntry::match_access_desc'), 'match_accessor == true',
-          lambda: R.call_guard(ea, 'acl::AclEntry::match_accessor'))
-    ra = closure_in(R, 'acl::AccessReq::allow', ['Fabrics::allow'])
-    rd = prims.result_defs(ra)
-    allowed_calls = {'fabric::Fabrics::allow', 'acl::AccessReq::allow_groupcast_auxiliary'}
-    R.expect('P10', ra.fn, 'AccessReq::allow grants only through Fabrics::allow (or the group auxiliary entry)',
-             all((k == 'const' and p in (0, 1) and False) or (k == 'call' and p.get('f') in allowed_calls) or (k == 'const' and p == 1 and False) or (k == 'const' and p == 0) or (k == 'const' and p == 1)
-                 for bb, k, p in rd) and not _const_true_without(R, ra, rd),
-             'ok', f'{[(k, p.get("f") if isinstance(p, dict) else p) for bb, k, p in rd]}')
-
-    # ---- f --------------------------------------------------------------------
-    ie = R.body('acl::Accessor::is_endpoint_accessible')
-    rd = prims.result_defs(ie)
-    trues = [bb for bb, k, p in rd if k == 'const' and p == 1]
-    R.floor('constant-true result of is_endpoint_accessible', len(trues), 1)
-
-    def not_group():
-        ne = ie.calls('core::cmp::PartialEq::ne')
-        if not ne:
-            raise AnchorLost('auth_mode != Some(Group) test missing')
+    with R.clause('a'):
+        pass
+        ma = R.body('acl::AclEntry::match_accessor')
+        defs = prims.result_defs(ma)
+        nonfalse = [(bb, k, p) for (bb, k, p) in defs if not (k == 'const' and p == 0)]
+        R.floor('result definitions of match_accessor', len(defs), 2)
+        ok = all(k == 'call' and p.get('f') == 'core::option::Option::unwrap_or' for (bb, k, p) in nonfalse) and bool(nonfalse)
+        R.expect('P10', ma.fn, 'the only non-false result is fab_idx.map(..).unwrap_or(false)', ok,
+                 f'{len(nonfalse)} non-false result definition(s), all Option::unwrap_or',
+                 f'non-false results: {[(ma.where(bb), k, (p.get("f") if isinstance(p, dict) else p)) for bb, k, p in nonfalse]}')
+        for (bb, k, p) in nonfalse:
+            if k != 'call':
+                continue
+            srcs = prims.sources(ma, p['a'][0], through={'core::option::Option::map'})
+            R.expect('P10', ma.fn, 'unwrap_or default is false and the Option derives from self.fab_idx',
+                     p['a'][1].get('k', {}).get('v') == 0 and mentions(srcs, 'fab_idx') and 'core::option::Option::map' in src_calls(srcs),
+                     'self.fab_idx.map(cmp).unwrap_or(false)', f'sources {sorted(map(str, srcs))[:6]}, default {p["a"][1]}', ma.where(bb))
+        cmpc = closure_in(R, 'acl::AclEntry::match_accessor', ['NonZero::get'])
+        cs = prims.compare_sites(cmpc, ops=('Eq', 'Ne', 'Le', 'Ge', 'Lt', 'Gt'))
+        good = [c for c in cs if c[2] == 'Eq' and mentions(prims.sources(cmpc, c[3]) | prims.sources(cmpc, c[4]), 'fab_idx')
+                and 'core::num::nonzero::NonZero::get' in src_calls(prims.sources(cmpc, c[3]) | prims.sources(cmpc, c[4]))]
+        R.expect('P10', cmpc.fn, 'entry fabric index is compared for equality with the accessor fabric index', len(good) == 1 and len(cs) == 1,
+                 'fab_idx.get() == accessor.fab_idx', f'comparisons: {[(c[2]) for c in cs]}', f'{cmpc.file}:{cmpc.line}')
+        rd = prims.result_defs(cmpc)
+        R.expect('P10', cmpc.fn, 'the closure returns the comparison itself', all(k == 'expr' and p.get('op') == 'bin' and p.get('b') == 'Eq' for bb, k, p in rd) and bool(rd),
+                 'return a == b', f'result defs {[(k) for bb, k, p in rd]}')
+        # auth mode must match: non-false results cut by the `!=` being false
+        ne = ma.calls('core::cmp::PartialEq::ne')
+        R.floor('auth-mode comparison in match_accessor', len(ne), 1)
         s = set()
         for a in ne[0].d['a']:
-            s |= prims.sources(ie, a)
-        if not (mentions(s, 'auth_mode') and ('agg', 'acl::AuthMode', 'Group') in s):
-            return set()
-        return prims.track_result(F, ie, ne[0]).success
-    R.cut('P2', ie, 'return true', trues, 'auth_mode != Some(AuthMode::Group)', not_group)
-    if groups:
-        others = [(bb, k, p) for bb, k, p in rd if k != 'const']
-        R.expect('P10', ie.fn, 'group accessors: result is the membership lookup', all(k == 'call' and p.get('f') == 'Matter::with_state' for bb, k, p in others) and bool(others),
-                 'matter.with_state(|s| membership)', f'{[(k, p.get("f") if isinstance(p, dict) else p) for bb, k, p in others]}')
-        mem = closure_in(R, 'acl::Accessor::is_endpoint_accessible', ['Fabrics::get'])
-        rd = prims.result_defs(mem)
-        R.expect('P10', mem.fn, 'membership lookup: false on a missing fabric, else groups().get(id).is_some_and(contains)',
-                 all((k == 'const' and p == 0) or (k == 'call' and p.get('f') == 'core::option::Option::is_some_and') for bb, k, p in rd) and any(k == 'call' for bb, k, p in rd),
+            s |= prims.sources(ma, a)
+        R.expect('P10', ma.fn, 'auth modes of entry and accessor are compared', mentions(s, 'auth_mode') and ('arg', 2) in s and ('arg', 1) in s,
+                 'Some(self.auth_mode) != accessor.auth_mode', f'sources {sorted(map(str, s))[:6]}', ma.where(ne[0].bb))
+        R.cut('P2', ma, 'non-false result', [bb for bb, k, p in nonfalse], 'auth modes equal',
+              lambda: _false_edges(R, ma, ne[0]))
+        allow = named_local(ma, 'allow')
+        te = set()
+        for l in allow:
+            te |= prims.bool_local_edges(ma, l)[0]
+        R.cut('P2', ma, 'non-false result', [bb for bb, k, p in nonfalse], 'subject match (allow == true)', te)
+        subj = closure_in(R, 'acl::AclEntry::match_accessor', ['AccessorSubjects::matches'])
+        R.expect('P4', subj.fn, 'subject matching goes through AccessorSubjects::matches', True, 'located by content', '')
+
+        fa = R.body('fabric::Fabrics::allow')
+        defs = prims.result_defs(fa)
+        trues = [bb for bb, k, p in defs if k == 'const' and p == 1]
+        others = [(bb, k, p) for bb, k, p in defs if not (k == 'const')]
+        R.expect('P10', fa.fn, 'every non-constant result is Fabric::allow', all(k == 'call' and p.get('f') == 'fabric::Fabric::allow' for bb, k, p in others) and len(others) == 1,
+                 'fabric.allow(req, aux)', f'{[(k, p.get("f") if isinstance(p, dict) else p) for bb, k, p in others]}')
+        R.floor('constant-true results of Fabrics::allow', len(trues), 1)
+        eq = fa.calls('core::cmp::PartialEq::eq')
+        R.floor('auth-mode comparison in Fabrics::allow', len(eq), 1)
+        s = set()
+        for a in eq[0].d['a']:
+            s |= prims.sources(fa, a)
+        R.expect('P10', fa.fn, 'the implicit grant tests auth_mode() against AuthMode::Pase',
+                 'acl::Accessor::auth_mode' in src_calls(s) and ('agg', 'acl::AuthMode', 'Pase') in s and not [x for x in s if x[0] == 'agg' and x[1] == 'acl::AuthMode' and x[2] != 'Pase'],
+                 'auth_mode() == Some(Pase)', f'sources {sorted(map(str, s))[:8]}', fa.where(eq[0].bb))
+        R.cut('P2', fa, 'return true', trues, 'auth_mode() == Some(AuthMode::Pase)', lambda: R.call_guard(fa, 'core::cmp::PartialEq::eq'))
+        call = [p for bb, k, p in others if k == 'call']
+        if call:
+            srcs = prims.sources(fa, call[0]['a'][0], through={'fabric::Fabrics::get', 'acl::Accessor::fab_idx', 'acl::AccessReq::accessor'})
+            R.expect('P10', fa.fn, 'the fabric consulted is the accessor\'s own', 'fabric::Fabrics::get' in src_calls(srcs) and 'acl::Accessor::fab_idx' in src_calls(srcs),
+                     'self.get(req.accessor().fab_idx()?)', f'sources {sorted(map(str, srcs))[:8]}')
+            cbb = [bb for bb, k, p in others]
+            R.cut('P2', fa, 'Fabric::allow', cbb, 'accessor.fab_idx() is a real index', lambda: R.call_guard(fa, 'acl::Accessor::fab_idx'))
+            R.cut('P2', fa, 'Fabric::allow', cbb, 'the fabric exists', lambda: R.call_guard(fa, 'fabric::Fabrics::get'))
+        fb = R.body('fabric::Fabric::allow')
+        R.expect('P4', fb.fn, 'Fabric::allow evaluates its own ACL entries with AclEntry::allow',
+                 any('acl::AclEntry::allow' in b.calls_summary for b in [fb] + F.nested(fb.fn)), 'entries.any(|e| e.allow(req))', 'AclEntry::allow not called')
+        rd = prims.result_defs(fb)
+        trues_fb = [bb for bb, k, p in rd if k == 'const' and p == 1]
+        R.expect('P10', fb.fn, 'Fabric::allow returns only constants decided by AclEntry::allow', all(k == 'const' for bb, k, p in rd) and bool(trues_fb), 'ok', 'non-constant result')
+        R.cut('P2', fb, 'return true', trues_fb, 'some entry\'s AclEntry::allow == true', lambda: R.call_guard(fb, 'acl::AclEntry::allow'))
+
+    # ---- c --------------------------------------------------------------------
+    with R.clause('c'):
+        pass
+        P = 'dm::types::privilege::Privilege::'
+        A = 'dm::types::privilege::Access::'
+        v, o, m, a = (F.const_val(P + n) for n in ('VIEW', 'OPERATE', 'MANAGE', 'ADMIN'))
+        R.expect('P6', P, 'privilege lattice VIEW < OPERATE < MANAGE < ADMIN (bitwise inclusion)',
+                 v and (v & o) == v and v != o and (o & m) == o and o != m and (m & a) == m and m != a, f'{v:#x} {o:#x} {m:#x} {a:#x}', f'{v:#x} {o:#x} {m:#x} {a:#x}')
+        nv, no, nm, na = (F.const_val(A + n) for n in ('NEED_VIEW', 'NEED_OPERATE', 'NEED_MANAGE', 'NEED_ADMIN'))
+        bits = [F.const_val(P + n) for n in ('V', 'O', 'M', 'A')]
+        R.expect('P6', A, 'NEED_* bits line up with the privilege bits', [nv, no, nm, na] == bits and len(set(bits)) == 4 and all(b & (b - 1) == 0 for b in bits),
+                 str(bits), f'NEED {[nv, no, nm, na]} vs privilege bits {bits}')
+        R.expect('P6', P, 'each privilege level carries exactly the bits up to its own',
+                 (v, o, m, a) == (bits[0], bits[0] | bits[1], bits[0] | bits[1] | bits[2], bits[0] | bits[1] | bits[2] | bits[3]), 'ok', f'{(v, o, m, a)}')
+        R.expect('P6', A, 'read mask = V|O|M|A, write mask = O|M|A', F.const_val(A + 'READ_PRIVILEGE_MASK') == nv | no | nm | na and F.const_val(A + 'WRITE_PRIVILEGE_MASK') == no | nm | na,
+                 'ok', f'{F.const_val(A + "READ_PRIVILEGE_MASK")} {F.const_val(A + "WRITE_PRIVILEGE_MASK")}')
+        pv = F.const_val(P + 'PROXYVIEW')
+        R.expect('P6', P, 'ProxyView shares no bit with the required-privilege bits', pv & (nv | no | nm | na) == 0, hex(pv), hex(pv))
+        for n in ('READ', 'WRITE', 'FAB_SCOPED', 'FAB_SENSITIVE', 'TIMED_ONLY'):
+            c = F.const_val(A + n)
+            R.expect('P6', A, f'Access::{n} is a single bit disjoint from the NEED_* bits', c & (c - 1) == 0 and c & 0xf == 0, hex(c), hex(c))
+        iso = R.body('dm::types::privilege::Access::is_ok')
+        nf = prims.nonfalse_result_bbs(iso)
+        R.floor('non-false results of Access::is_ok', len(nf), 1)
+
+        def priv_and_required():
+            e = set()
+            for (bb, j, op, a1, a2, d) in prims.compare_sites(iso, ops=('Eq',)):
+                s1, s2 = prims.sources(iso, a1), prims.sources(iso, a2)
+                if (0 in src_consts(s2) or 0 in src_consts(s1)) and any(x[0] == 'arg' and x[1] == 3 for x in s1 | s2):
+                    e |= prims.bool_local_edges(iso, d)[1]
+            return e
+        R.cut('P2', iso, 'non-false result', nf, '(privilege & required) != 0', priv_and_required)
+        R.cut('P2', iso, 'non-false result', nf, 'required privilege set is not empty', lambda: _false_edges_name(R, iso, 'is_empty'))
+        for (bb, k, p) in prims.result_defs(iso):
+            if k == 'call':
+                R.expect('P10', iso.fn, 'the granted result is self.contains(operation)', p.get('f', '').endswith('::contains'), p.get('f'), p.get('f'))
+        mad = R.body('acl::AclEntry::match_access_desc')
+        nf = prims.result_defs(mad)
+        R.expect('P10', mad.fn, 'the only non-false result of match_access_desc is Access::is_ok(operation, self.privilege)',
+                 all((k == 'const' and p == 0) or (k == 'call' and p.get('f') == 'dm::types::privilege::Access::is_ok') for bb, k, p in nf) and any(k == 'call' for bb, k, p in nf),
+                 'access.is_ok(..)', f'{[(k, p.get("f") if isinstance(p, dict) else p) for bb, k, p in nf]}')
+        for (bb, k, p) in nf:
+            if k == 'call':
+                s = prims.sources(mad, p['a'][2])
+                R.expect('P10', mad.fn, 'the privilege tested is the entry\'s own', mentions(s, 'privilege') and ('arg', 1) in s, 'self.privilege', f'{sorted(map(str, s))[:5]}', mad.where(bb))
+
+    # ---- d --------------------------------------------------------------------
+    with R.clause('d'):
+        pass
+        mt = R.body('acl::AccessorSubjects::matches')
+        ids = [c for c in prims.compare_sites(mt) if 'acl::get_noc_cat_id' in src_calls(prims.sources(mt, c[3])) and 'acl::get_noc_cat_id' in src_calls(prims.sources(mt, c[4]))]
+        vers = [c for c in prims.compare_sites(mt) if 'acl::get_noc_cat_version' in src_calls(prims.sources(mt, c[3])) and 'acl::get_noc_cat_version' in src_calls(prims.sources(mt, c[4]))]
+        R.expect('P10', mt.fn, 'CAT identifiers are compared for equality', len(ids) == 1 and ids[0][2] == 'Eq', 'Eq', f'{[c[2] for c in ids]}')
+        okv = False
+        if len(vers) == 1:
+            bb, j, op, a1, a2, d = vers[0]
+            l_is_entry = ('arg', 2) in prims.sources(mt, a1, through={'acl::get_noc_cat_version'})
+            r_is_entry = ('arg', 2) in prims.sources(mt, a2, through={'acl::get_noc_cat_version'})
+            okv = (op == 'Ge' and r_is_entry and not l_is_entry) or (op == 'Le' and l_is_entry and not r_is_entry)
+        R.expect('P10', mt.fn, 'CAT version: accessor >= entry', okv, 'version(accessor) >= version(acl_subject)', f'{[(c[2]) for c in vers]}')
+        cats = mt.calls('acl::is_noc_cat')
+        R.expect('P2', mt.fn, 'both the accessor subject and the entry subject are tested with is_noc_cat before the CAT comparison', len(cats) >= 2,
+                 f'{len(cats)} is_noc_cat tests', f'only {len(cats)} is_noc_cat test(s): a plain node id can be compared as if it were a CAT')
+        trues = [bb for bb, k, p in prims.result_defs(mt) if k == 'const' and p == 1]
+        R.floor('true results in AccessorSubjects::matches', len(trues), 2)
+        others = [1 for bb, k, p in prims.result_defs(mt) if k != 'const']
+        R.expect('P10', mt.fn, 'matches() returns only constants decided by the comparisons', not others, 'ok', 'non-constant result')
+
+        def cat_or_exact():
+            e = set()
+            if vers:
+                e |= prims.bool_local_edges(mt, vers[0][5])[0]
+            for c in prims.compare_sites(mt, ops=('Eq',)):
+                s1, s2 = prims.sources(mt, c[3]), prims.sources(mt, c[4])
+                if ('arg', 2) in (s1 | s2) and not ('acl::get_noc_cat_id' in src_calls(s1 | s2)) and not (0 in src_consts(s1 | s2)):
+                    e |= prims.bool_local_edges(mt, c[5])[0]
+            return e
+        R.cut('P2', mt, 'return true', trues, 'exact subject match or (same CAT id and version >=)', cat_or_exact)
+        def exact_edges():
+            e = set()
+            for c in prims.compare_sites(mt, ops=('Eq',)):
+                s1, s2 = prims.sources(mt, c[3]), prims.sources(mt, c[4])
+                if ('arg', 2) in (s1 | s2) and not ('acl::get_noc_cat_id' in src_calls(s1 | s2)) and not (0 in src_consts(s1 | s2)):
+                    e |= prims.bool_local_edges(mt, c[5])[0]
+            return e
+        if ids:
+            R.cut('P2', mt, 'return true', trues, 'exact subject match or CAT ids equal', lambda: exact_edges() | prims.bool_local_edges(mt, ids[0][5])[0])
+        for t in cats:
+            R.cut('P2', mt, 'return true', trues, f'exact subject match or is_noc_cat@{mt.where(t.bb)}',
+                  lambda t=t: exact_edges() | prims.track_result(F, mt, t).success)
+
+    # ---- e --------------------------------------------------------------------
+    with R.clause('e'):
+        pass
+        R.callers_confined('P1', 'acl::AclEntry::allow', {'fabric::Fabric::allow'})
+        R.callers_confined('P1', 'fabric::Fabric::allow', {'fabric::Fabrics::allow'})
+        R.callers_confined('P1', 'fabric::Fabrics::allow', {'acl::AccessReq::allow'})
+        R.callers_confined('P1', 'acl::AclEntry::match_accessor', {'acl::AclEntry::allow'})
+        R.callers_confined('P1', 'acl::AclEntry::match_access_desc', {'acl::AclEntry::allow'})
+        ea = R.body('acl::AclEntry::allow')
+        rd = prims.result_defs(ea)
+        R.expect('P10', ea.fn, 'AclEntry::allow = match_accessor && match_access_desc',
+                 all((k == 'const' and p == 0) or (k == 'call' and p.get('f') == 'acl::AclEntry::match_access_desc') for bb, k, p in rd) and any(k == 'call' for bb, k, p in rd),
                  'ok', f'{[(k, p.get("f") if isinstance(p, dict) else p) for bb, k, p in rd]}')
-        R.cut('P2', mem, 'membership result', [bb for bb, k, p in rd if k == 'call'], 'the accessor\'s fabric exists', lambda: R.call_guard(mem, 'fabric::Fabrics::get'))
-        inner = closure_in(R, 'acl::Accessor::is_endpoint_accessible', ['contains'])
-        R.expect('P4', inner.fn, 'membership is endpoints.contains(&endpoint_id)', True, 'located by content', '')
+        R.cut('P2', ea, 'match_access_desc (and any non-false result)', call_bbs(ea, 'acl::AclEntry::match_access_desc'), 'match_accessor == true',
+              lambda: R.call_guard(ea, 'acl::AclEntry::match_accessor'))
+        ra = closure_in(R, 'acl::AccessReq::allow', ['Fabrics::allow'])
+        rd = prims.result_defs(ra)
+        allowed_calls = {'fabric::Fabrics::allow', 'acl::AccessReq::allow_groupcast_auxiliary'}
+        R.expect('P10', ra.fn, 'AccessReq::allow grants only through Fabrics::allow (or the group auxiliary entry)',
+                 all((k == 'const' and p in (0, 1) and False) or (k == 'call' and p.get('f') in allowed_calls) or (k == 'const' and p == 1 and False) or (k == 'const' and p == 0) or (k == 'const' and p == 1)
+                     for bb, k, p in rd) and not _const_true_without(R, ra, rd),
+                 'ok', f'{[(k, p.get("f") if isinstance(p, dict) else p) for bb, k, p in rd]}')
+
+    # ---- f --------------------------------------------------------------------
+    with R.clause('f'):
+        pass
+        ie = R.body('acl::Accessor::is_endpoint_accessible')
+        rd = prims.result_defs(ie)
+        trues = [bb for bb, k, p in rd if k == 'const' and p == 1]
+        R.floor('constant-true result of is_endpoint_accessible', len(trues), 1)
+
+        def not_group():
+            ne = ie.calls('core::cmp::PartialEq::ne')
+            if not ne:
+                raise AnchorLost('auth_mode != Some(Group) test missing')
+            s = set()
+            for a in ne[0].d['a']:
+                s |= prims.sources(ie, a)
+            if not (mentions(s, 'auth_mode') and ('agg', 'acl::AuthMode', 'Group') in s):
+                return set()
+            return prims.track_result(F, ie, ne[0]).success
+        R.cut('P2', ie, 'return true', trues, 'auth_mode != Some(AuthMode::Group)', not_group)
+        if groups:
+            others = [(bb, k, p) for bb, k, p in rd if k != 'const']
+            R.expect('P10', ie.fn, 'group accessors: result is the membership lookup', all(k == 'call' and p.get('f') == 'Matter::with_state' for bb, k, p in others) and bool(others),
+                     'matter.with_state(|s| membership)', f'{[(k, p.get("f") if isinstance(p, dict) else p) for bb, k, p in others]}')
+            mem = closure_in(R, 'acl::Accessor::is_endpoint_accessible', ['Fabrics::get'])
+            rd = prims.result_defs(mem)
+            R.expect('P10', mem.fn, 'membership lookup: false on a missing fabric, else groups().get(id).is_some_and(contains)',
+                     all((k == 'const' and p == 0) or (k == 'call' and p.get('f') == 'core::option::Option::is_some_and') for bb, k, p in rd) and any(k == 'call' for bb, k, p in rd),
+                     'ok', f'{[(k, p.get("f") if isinstance(p, dict) else p) for bb, k, p in rd]}')
+            R.cut('P2', mem, 'membership result', [bb for bb, k, p in rd if k == 'call'], 'the accessor\'s fabric exists', lambda: R.call_guard(mem, 'fabric::Fabrics::get'))
+            inner = closure_in(R, 'acl::Accessor::is_endpoint_accessible', ['contains'])
+            R.expect('P4', inner.fn, 'membership is endpoints.contains(&endpoint_id)', True, 'located by content', '')
 
 
 def _false_edges(R, body, site):
